@@ -462,11 +462,25 @@ func runC16(r *ev.Run, rep *ev.ReplayDoc) ev.Summary {
 			cases = append(cases, c16Case{Mech: mech, User: "user", Pass: genSecret(rng), Logger: lgr, OptIn: true, TLS: isPlus(mech)})
 		}
 	}
+	// every mechanism with an empty user name (a response of the exchange is an empty line then), every logger
+	for mi, mech := range mechs {
+		for li, lgr := range loggers {
+			rng := r.Rng("c16emptyuser", mi*10+li)
+			c := c16Case{Mech: mech, User: "", Pass: genSecret(rng), Logger: lgr, TLS: isPlus(mech), ExplicitOff: li%2 == 0}
+			if !c.TLS && li%2 == 1 {
+				c.Via = "direct"
+			}
+			cases = append(cases, c)
+		}
+	}
 	m := r.Pick(2500, 100000)
 	for i := 0; i < m; i++ {
 		rng := r.Rng("c16", i)
 		c := c16Case{Mech: gen.Pick(rng, append([]string{"PLAIN", "PLAIN", "LOGIN", "LOGIN", "XOAUTH2", "XOAUTH2"}, mechs...)), User: "u" + genSecret(rng)[:8], Pass: genSecret(rng), Logger: gen.Pick(rng, loggers), ExplicitOff: rng.Intn(3) == 0, WrongPass: rng.Intn(4) == 0}
 		c.TLS = isPlus(c.Mech) || rng.Intn(4) == 0
+		if rng.Intn(8) == 0 {
+			c.User = "" // an account without a user name: the response that carries it is an empty line
+		}
 		if rng.Intn(2) == 0 {
 			c.Fault = gen.Pick(rng, faults[1:])
 			c.FaultStep = rng.Intn(5)
